@@ -73,6 +73,21 @@ def file_sites(ctx):
                         ok, why = False, "%s file registered in %s" % (fn, l.func.value.attr)
                 ctx.item(ident, ok, why, sample={"function": func.name, "writes": len(writes), "listed": len(lists)},
                          confirm=lambda: ctx.monitor("m_wrapsel", "search", 80, ctx.seed), shape=True)
+    # the writer itself: the file opened is join(directory, fname) with both parameters as the callers passed them (the
+    # callers list join(directory, fname): listed == written needs the same path)
+    tree = ast.parse(open(os.path.join(REPO, "shroud", "util.py")).read())
+    wof = [n for n in ast.walk(tree) if isinstance(n, ast.FunctionDef) and n.name == "write_output_file"]
+    ok, why = False, "write_output_file not found"
+    if wof:
+        f = wof[0]
+        opens = [n for n in ast.walk(f) if isinstance(n, ast.Call) and isinstance(n.func, ast.Name) and n.func.id == "open"]
+        rebound = [ast.unparse(n)[:60] for n in ast.walk(f) if isinstance(n, (ast.Assign, ast.AugAssign)) and any(
+            isinstance(t, ast.Name) and t.id in ("fname", "directory") for t in (n.targets if isinstance(n, ast.Assign) else [n.target]))]
+        ok = len(opens) == 1 and ast.unparse(opens[0].args[0]) == "os.path.join(directory, fname)" and not rebound
+        why = "opens %s; parameters re-bound: %s" % ([ast.unparse(o.args[0]) for o in opens], rebound)
+    ctx.item("C15/U1/util.py:write_output_file:opens-join(directory,fname)", ok,
+             "write_output_file must open os.path.join(directory, fname) with its parameters unchanged: " + why,
+             confirm=lambda: ctx.monitor("m_wrapsel", "search", 80, ctx.seed), shape=True)
     # Python / Lua emitters never touch cfiles / ffiles
     for fn in ("wrapp.py", "wrapl.py"):
         src = open(os.path.join(REPO, "shroud", fn)).read()
